@@ -179,6 +179,68 @@ func Yield()                           {}
 func NumTimers() int                   { return 0 }
 func FireTimer(i int) bool             { return false }
 func DeepEqual(a, b any) bool          { return reflect.DeepEqual(a, b) }
+
+// CountString counts the strings equal to s reachable from v through
+// pointers, interfaces, structs (unexported fields too), slices, arrays and maps.
+func CountString(v any, s string) int {
+	return countString(reflect.ValueOf(v), s, map[uintptr]bool{}, 0)
+}
+
+func countString(v reflect.Value, s string, seen map[uintptr]bool, depth int) int {
+	if !v.IsValid() || depth > 64 {
+		return 0
+	}
+	switch v.Kind() {
+	case reflect.String:
+		if v.String() == s {
+			return 1
+		}
+	case reflect.Ptr:
+		if v.IsNil() || seen[v.Pointer()] {
+			return 0
+		}
+		seen[v.Pointer()] = true
+		return countString(v.Elem(), s, seen, depth+1)
+	case reflect.Interface:
+		if v.IsNil() {
+			return 0
+		}
+		return countString(v.Elem(), s, seen, depth+1)
+	case reflect.Struct:
+		n := 0
+		for i := 0; i < v.NumField(); i++ {
+			n += countString(v.Field(i), s, seen, depth+1)
+		}
+		return n
+	case reflect.Slice:
+		if v.IsNil() || v.Len() == 0 {
+			return 0
+		}
+		if seen[v.Pointer()] {
+			return 0
+		}
+		seen[v.Pointer()] = true
+		fallthrough
+	case reflect.Array:
+		n := 0
+		for i := 0; i < v.Len(); i++ {
+			n += countString(v.Index(i), s, seen, depth+1)
+		}
+		return n
+	case reflect.Map:
+		if v.IsNil() || seen[v.Pointer()] {
+			return 0
+		}
+		seen[v.Pointer()] = true
+		n := 0
+		it := v.MapRange()
+		for it.Next() {
+			n += countString(it.Key(), s, seen, depth+1) + countString(it.Value(), s, seen, depth+1)
+		}
+		return n
+	}
+	return 0
+}
 func UF8(name string, a, b uint8) byte { return 0 }
 
 var tier int
